@@ -5,12 +5,16 @@
 package rtp
 
 import (
+	"errors"
 	"fmt"
 	"time"
 
 	"github.com/cnotch/ipchub/av/codec"
 	"github.com/cnotch/ipchub/av/codec/h264"
 )
+
+// errTruncatedPayload 载荷长度不足（聚合包、AU 头等被截断）
+var errTruncatedPayload = errors.New("rtp payload is truncated")
 
 type h264Depacketizer struct {
 	depacketizer
@@ -97,6 +101,9 @@ func (h264dp *h264Depacketizer) depacketizeStapa(packet *Packet) (err error) {
 	off := 1 // 跳过 STAP-A NAL HDR
 	// 循环读取被封装的NAL
 	for {
+		if off+2 > len(payload) {
+			return errTruncatedPayload
+		}
 		// nal长度
 		nalSize := ((uint16(payload[off])) << 8) | uint16(payload[off+1])
 		if nalSize < 1 {
@@ -104,6 +111,9 @@ func (h264dp *h264Depacketizer) depacketizeStapa(packet *Packet) (err error) {
 		}
 
 		off += 2
+		if off+int(nalSize) > len(payload) {
+			return errTruncatedPayload
+		}
 		frame := &codec.Frame{
 			MediaType: codec.MediaTypeVideo,
 			Payload:   make([]byte, nalSize),
@@ -124,6 +134,9 @@ func (h264dp *h264Depacketizer) depacketizeStapa(packet *Packet) (err error) {
 
 func (h264dp *h264Depacketizer) depacketizeFuA(packet *Packet) (err error) {
 	payload := packet.Payload()
+	if len(payload) < 3 {
+		return
+	}
 	header := payload[0]
 
 	// 	0                   1                   2                   3
